@@ -273,3 +273,35 @@ func applyDefaults(x interface{}, s *structuralschema.Structural) {
 		}
 	}
 }
+
+// dropNulls removes null values of fields that are not nullable, as the API
+// server does before defaulting ("null values for fields that either don't
+// specify the nullable flag, or specify it as false, will be pruned").
+func dropNulls(x interface{}, s *structuralschema.Structural) {
+	if s == nil {
+		return
+	}
+	switch x := x.(type) {
+	case map[string]interface{}:
+		for k, v := range x {
+			var ps *structuralschema.Structural
+			if prop, ok := s.Properties[k]; ok {
+				p := prop
+				ps = &p
+			} else if s.AdditionalProperties != nil {
+				ps = s.AdditionalProperties.Structural
+			}
+			if v == nil {
+				if ps != nil && !ps.Nullable {
+					delete(x, k)
+				}
+				continue
+			}
+			dropNulls(v, ps)
+		}
+	case []interface{}:
+		for i := range x {
+			dropNulls(x[i], s.Items)
+		}
+	}
+}
